@@ -388,6 +388,13 @@ func genStoreCase(r *rand.Rand, id int) *Case {
 			c.Decls[i], c.Decls[j] = c.Decls[j], c.Decls[i]
 		}
 	})
+	// two origins on the same account under both assets
+	if r.Intn(6) == 0 {
+		a := leaves[0]
+		newVar("monetary", J{"k": "call", "name": "balance", "args": jl(acctExpr[a], eAsset(other))}, J{"t": "none"})
+		n := newVar("monetary", J{"k": "call", "name": "balance", "args": jl(acctExpr[a], eAsset(S))}, J{"t": "none"})
+		balVars = append(balVars, n)
+	}
 	mkLeaf := func(a string) J {
 		switch r.Intn(6) {
 		case 0:
@@ -401,6 +408,11 @@ func genStoreCase(r *rand.Rand, id int) *Case {
 	for _, a := range leaves {
 		srcs = append(srcs, mkLeaf(a))
 	}
+	if r.Intn(8) == 0 && len(srcs) >= 2 {
+		// a capped world in the middle: the sources after it are still needed
+		mid := J{"k": "cap", "c": eMon(eAsset(S), eNum(pick(r, []int{1, 3, 10}))), "s": J{"k": "acct", "e": eAcct("world")}}
+		srcs = append(append(append([]any{}, srcs[:1]...), mid), srcs[1:]...)
+	}
 	switch r.Intn(8) {
 	case 0:
 		srcs = append(srcs, J{"k": "acct", "e": eAcct("world")})
@@ -411,17 +423,31 @@ func genStoreCase(r *rand.Rand, id int) *Case {
 		newVar("monetary", J{"k": "call", "name": "balance", "args": jl(eAcct("world"), eAsset(S))}, J{"t": "none"})
 	}
 	var src J = J{"k": "seq", "s": srcs}
-	if len(srcs) == 1 && r.Intn(2) == 0 {
+	if r.Intn(8) == 0 && len(leaves) >= 2 {
+		its := []any{J{"p": pick(r, []J{ePortion(0, 1), J{"k": "portion", "n": 0, "d": 100, "txt": "0%"}, ePortion(1, 3)}), "s": J{"k": "acct", "e": acctExpr[leaves[0]]}}}
+		for i, a := range leaves[1:] {
+			p := ePortion(1, 2)
+			if i == len(leaves[1:])-1 {
+				p = eRemaining()
+			}
+			its = append(its, J{"p": p, "s": J{"k": "acct", "e": acctExpr[a]}})
+		}
+		src = J{"k": "allot", "it": its}
+		srcs = srcs[:0]
+	}
+	if len(srcs) == 1 && r.Intn(2) == 0 && src["k"] == "seq" {
 		src = srcs[0].(J)
 	}
 	all := r.Intn(4) == 0
 	var sent J
 	if all {
 		sent = eAsset(S)
-		// no world under send-all
-		if len(srcs) > nl {
-			src = J{"k": "seq", "s": srcs[:nl]}
+		// no world / allotment under send-all
+		plain := []any{}
+		for _, a := range leaves {
+			plain = append(plain, J{"k": "acct", "e": acctExpr[a]})
 		}
+		src = J{"k": "seq", "s": plain}
 	} else if len(balVars) > 0 && r.Intn(2) == 0 {
 		sent = eVar(pick(r, balVars))
 	} else {
